@@ -11,12 +11,16 @@ For every particle set EVERY transformation of the stated generating set is exec
     translation by k = 1..nmesh whole cells along each axis (+ one diagonal), periodic wrap, exact in the
     position dtype (verified with rationals in selfcheck and per call);
     nthread in {1, 2, 5, 16} (each repeated once: identical calls must agree);
-    pos2 = pos as the same array object, as a copy, as a permuted copy (weights likewise).
+    pos2 = pos as the same array object, as a copy, (thorough) as a permuted copy (weights likewise).
+Position dtype / field dtype: float32/float32, float64/float64, float64/float32.
 Oracle (from the property statement, never from the code under test):
     power, poles, k_avg agree with the base call within TOL * max|column| (TOL by OUTPUT dtype: 3e-5 float32,
     1e-11 float64); N_mode, N_mode_poles, k_min/k_max/k_mid, mu_min/mu_max/mu_mid, column names, shapes and dtypes
     are EXACTLY equal over all calls of the case (hence across particle sets), and - via finalize - across all
     cases that share (nmesh, Box, binning) whatever the paste/compensation/interlacing/dtype.
+A comparison that fails is re-executed (both sides, twice, identical inputs) before it is classified: if identical calls
+disagree among themselves the finding is non-deterministic painting (sig thread-count:tsc-race, the C07 stripe race seen
+through calc_power) and not a violation of the particular symmetry.
 The largest deviation of every passing comparison (the noise floor) is re-measured on every run and reported
 in the evidence (`floor_*`); a floor above 3e-6 is reported as harness-error (the transformations themselves
 would no longer be exact), not as a pass.
